@@ -662,54 +662,61 @@ func TestVerifEngineBounded(t *testing.T) {
 		if err != nil {
 			t.Fatalf("config %+v does not start: %v", c, err)
 		}
-		seen := map[string]bool{}
-		type node struct {
-			gs   *GameState
-			path []xop
-		}
-		stack := []node{{xclone(g.GetState()), nil}}
-		for len(stack) > 0 && failure == nil && len(seen) < maxStates {
-			nd := stack[len(stack)-1]
-			stack = stack[:len(stack)-1]
-			key := xkey(nd.gs)
-			if seen[key] {
-				continue
+		color := map[string]int{} // 1 = on the current path, 2 = fully explored
+		var visit func(gs0 *GameState, path []xop)
+		visit = func(gs0 *GameState, path []xop) {
+			if failure != nil || len(color) >= maxStates {
+				return
 			}
-			seen[key] = true
+			key := xkey(gs0)
+			if color[key] != 0 {
+				return
+			}
+			color[key] = 1
+			defer func() { color[key] = 2 }()
 			rep.States++
-			if len(nd.path) > rep.MaxDepth {
-				rep.MaxDepth = len(nd.path)
+			if len(path) > rep.MaxDepth {
+				rep.MaxDepth = len(path)
 			}
-			if len(nd.path) > 400 {
-				record([]xchk{{"C06", "no-termination", fmt.Sprintf("hand still open after %d steps", len(nd.path)), ""}}, c, nd.path)
-				break
-			}
-			record(xstateOracles(nd.gs, c), c, nd.path)
+			record(xstateOracles(gs0, c), c, path)
 			if prop == "" || prop == "C04" {
-				rf := xrefusals(nd.gs, c)
+				rf := xrefusals(gs0, c)
 				rep.Refusals += 12
-				record(rf, c, nd.path)
+				record(rf, c, path)
 			}
-			if nd.gs.Status.CurrentEvent == "GameClosed" {
+			if gs0.Status.CurrentEvent == "GameClosed" {
 				rep.Closed++
 				if len(rep.Samples) < 3 {
-					rep.Samples = append(rep.Samples, map[string]interface{}{"config": c, "path": fmt.Sprint(nd.path)})
+					rep.Samples = append(rep.Samples, map[string]interface{}{"config": c, "path": fmt.Sprint(path)})
 				}
-				continue
+				// a closed hand accepts nothing (C06): covered by the refusal attempts when C04/all are checked; check here for C06
+				if prop == "C06" {
+					for _, k := range xrefusals(gs0, c) {
+						k.prop = "C06"
+						k.check = "closed-accepts"
+						if k.known == "" {
+							record([]xchk{k}, c, path)
+						}
+					}
+				}
+				return
 			}
-			ops := xenabled(nd.gs)
+			ops := xenabled(gs0)
 			if len(ops) == 0 {
-				record([]xchk{{"C06", "stuck", fmt.Sprintf("nothing to do at %s", nd.gs.Status.CurrentEvent), ""}}, c, nd.path)
+				record([]xchk{{"C06", "stuck", fmt.Sprintf("nothing to do at %s", gs0.Status.CurrentEvent), ""}}, c, path)
 			}
 			for _, o := range ops {
-				g1 := NewGameFromState(xclone(nd.gs))
+				if failure != nil {
+					return
+				}
+				g1 := NewGameFromState(xclone(gs0))
 				var err error
 				panicked := false
 				func() {
 					defer func() {
 						if r := recover(); r != nil {
 							panicked = true
-							record([]xchk{{"C06", "panic", fmt.Sprintf("%s panics: %v", o, r), ""}}, c, append(append([]xop{}, nd.path...), o))
+							record([]xchk{{"C06", "panic", fmt.Sprintf("%s panics: %v", o, r), ""}}, c, append(append([]xop{}, path...), o))
 						}
 					}()
 					err = xapply(g1, o)
@@ -719,10 +726,10 @@ func TestVerifEngineBounded(t *testing.T) {
 				}
 				rep.Transitions++
 				s1 := xclone(g1.GetState())
-				p1 := append(append([]xop{}, nd.path...), o)
-				record(xtransitionOracles(nd.gs, s1, o, err, c), c, p1)
+				p1 := append(append([]xop{}, path...), o)
+				record(xtransitionOracles(gs0, s1, o, err, c), c, p1)
 				// the first betting round must not start before the blinds have been requested and posted
-				if err == nil && s1.Status.CurrentEvent == "RoundStarted" && s1.Status.Round == "preflop" && nd.gs.Status.CurrentEvent != "RoundStarted" && (c.BB > 0 || c.SB > 0 || c.DealerB > 0) {
+				if err == nil && s1.Status.CurrentEvent == "RoundStarted" && s1.Status.Round == "preflop" && gs0.Status.CurrentEvent != "RoundStarted" && (c.BB > 0 || c.SB > 0 || c.DealerB > 0) {
 					posted := false
 					for _, q := range p1 {
 						if q.Kind == "blinds" {
@@ -737,14 +744,23 @@ func TestVerifEngineBounded(t *testing.T) {
 						record([]xchk{{"C13", "blinds-before-betting", fmt.Sprintf("preflop betting starts without the blinds having been posted (blinds %d/%d/%d)", c.DealerB, c.SB, c.BB), k}}, c, p1)
 					}
 				}
-				if err == nil && !(o.Kind == "bet" && o.Amount < 0) {
-					stack = append(stack, node{s1, p1})
-				} else if err == nil {
+				if err != nil {
+					continue
+				}
+				if o.Kind == "bet" && o.Amount < 0 {
 					// canary of the known finding F-BET-NEGATIVE: the state right after an accepted negative bet
 					record(xstateOracles(s1, c), c, p1)
+					continue
 				}
+				// every path in the state graph must be finite: reaching a state that is on the current path is a cycle
+				if color[xkey(s1)] == 1 {
+					record([]xchk{{"C06", "no-termination", fmt.Sprintf("the hand can loop forever: %s leads back to an earlier state of the same hand", o), ""}}, c, p1)
+					continue
+				}
+				visit(s1, p1)
 			}
 		}
+		visit(xclone(g.GetState()), nil)
 	}
 	rep.Cases = rep.Transitions + rep.Refusals
 	rep.Nontrivial = rep.States
